@@ -205,3 +205,60 @@ Proof. vm_compute. reflexivity. Qed.
 Lemma cancel_pinned_refuted :
   exists c r, returns_early_spec c r = true /\ returns_early_pinned c r = false.
 Proof. exists 200, 3000. split; reflexivity. Qed.
+
+(* ---------- the page's cookie collection *)
+Lemma cookie_find_set n k v c :
+  cookie_find n (cookie_set k v c) = if bytes_eqb n k then Some v else cookie_find n c.
+Proof.
+  induction c as [|[k' x] c IH]; cbn; [reflexivity|].
+  destruct (bytes_eqb k k') eqn:E; cbn.
+  - apply bytes_eqb_true in E. subst k'. destruct (bytes_eqb n k); reflexivity.
+  - rewrite IH. destruct (bytes_eqb n k') eqn:E'; [|reflexivity].
+    apply bytes_eqb_true in E'. subst k'. destruct (bytes_eqb n k) eqn:E2; [|reflexivity].
+    apply bytes_eqb_true in E2. subst k. rewrite bytes_eqb_refl in E. discriminate.
+Qed.
+
+Lemma cookie_fold_other l : forall acc n, ~ In n (map fst l) ->
+  cookie_find n (fold_left (fun acc kv => cookie_set (fst kv) (snd kv) acc) l acc) = cookie_find n acc.
+Proof.
+  induction l as [|[k x] l IH]; intros acc n H; cbn [fold_left]; [reflexivity|].
+  rewrite IH; [|intros I; apply H; right; exact I]. cbn [fst snd]. rewrite cookie_find_set.
+  rewrite bytes_eqb_neq; [reflexivity|]. intros ->. apply H. left. reflexivity.
+Qed.
+
+Lemma cookie_fold_in l : forall acc n v, NoDup (map fst l) -> In (n, v) l ->
+  cookie_find n (fold_left (fun acc kv => cookie_set (fst kv) (snd kv) acc) l acc) = Some v.
+Proof.
+  induction l as [|[k x] l IH]; intros acc n v D I; [destruct I|].
+  cbn [map fst] in D. inversion D as [|? ? Hk Dl]; subst. cbn [fold_left fst snd].
+  destruct I as [I|I].
+  - inversion I; subst. rewrite cookie_fold_other; [|exact Hk]. rewrite cookie_find_set, bytes_eqb_refl. reflexivity.
+  - apply IH; assumption.
+Qed.
+
+(* every cookie the response sets is in the collection, with its value -- the empty value included *)
+Lemma cookies_reported r n v : NoDup (map fst (r_cookies r)) -> In (n, v) (r_cookies r) ->
+  cookie_find n (reported_cookies r) = Some v.
+Proof. apply cookie_fold_in. Qed.
+
+(* ... and nothing else is *)
+Lemma cookies_reported_only r n : ~ In n (map fst (r_cookies r)) -> cookie_find n (reported_cookies r) = None.
+Proof. intros H. unfold reported_cookies, to_driver_cookies. rewrite cookie_fold_other; [reflexivity|exact H]. Qed.
+
+(* ---------- histories through one driver: every request carries the driver's
+   defaults merged with its own parameters, whatever was requested before *)
+Lemma history_independent names d : forall ps, history_spec names d ps = map (fun p => snd (open_spec names d p)) ps.
+Proof. induction ps as [|p ps IH]; [reflexivity|]. cbn [history_spec map open_spec fst snd]. f_equal. exact IH. Qed.
+
+Lemma history_nth names d ps k p : nth_error ps k = Some p ->
+  nth_error (history_spec names d ps) k = Some (snd (open_spec names d p)).
+Proof. intros H. rewrite history_independent. apply map_nth_error. exact H. Qed.
+
+(* a later request does not see an earlier one: the same request after any prefix *)
+Lemma history_prefix_irrelevant names d pre p :
+  nth_error (history_spec names d (pre ++ [p])) (List.length pre) = nth_error (history_spec names d [p]) 0.
+Proof.
+  rewrite (history_nth names d (pre ++ [p]) (List.length pre) p).
+  - reflexivity.
+  - rewrite nth_error_app2, Nat.sub_diag; [reflexivity|apply le_n].
+Qed.
